@@ -60,3 +60,15 @@ func VerifFilterState(body io.ReadCloser) (kind string, buffered int, closed boo
 	}
 	return "none", 0, false
 }
+
+// VerifLoadRuleFile builds a ModuleCompress whose rule table is loaded from a product rule FILE by the
+// real ProductRuleConfLoad (json decode, productRuleConfCheck / ActionFileCheck, ruleListConvert).
+func VerifLoadRuleFile(path string) (*ModuleCompress, error) {
+	conf, err := ProductRuleConfLoad(path)
+	if err != nil {
+		return nil, err
+	}
+	m := NewModuleCompress()
+	m.ruleTable.Update(conf)
+	return m, nil
+}
